@@ -344,7 +344,7 @@ func (e *Encoder) loopHeader(fr *frame, li *loopInfo, reach *Term, stIn *State) 
 			if cl.Loop == li.idx {
 				env := e.contractEnv(fr, ct, nil, stH, e.entryOr(stIn))
 				env.loop = li
-			li.initMap = ls.initMap
+				li.initMap = ls.initMap
 				v := env.trClauseVal(cl)
 				li.variant = c.Resize(v.T, 64, true)
 				li.varDesc = cl.Text
